@@ -389,6 +389,12 @@ func (dec *Decoder) Skip() {
 }
 
 func (dec *Decoder) next(n int) (data []byte, safe bool) {
+	if n < 0 {
+		if dec.Error == nil {
+			dec.Error = ErrInvalidLength
+		}
+		return nil, true
+	}
 	if (dec.head == dec.tail) && !dec.loadMore() {
 		return nil, true
 	}
@@ -399,7 +405,12 @@ func (dec *Decoder) next(n int) (data []byte, safe bool) {
 		return data, false
 	}
 	safe = true
-	data = make([]byte, remain, n)
+	// n comes off the wire: reserve no more than is loaded, append grows as data arrives
+	capacity := n
+	if max := remain + len(dec.buf); capacity > max {
+		capacity = max
+	}
+	data = make([]byte, remain, capacity)
 	copy(data, dec.buf[dec.head:dec.tail])
 	n -= remain
 	for {
